@@ -159,20 +159,41 @@ def extract(idx):
                 asg.setdefault("V", True)
             if prev is not None and prev.kind == "test" and lab in ("true", "false"):
                 pred, pol = classify(idx, fi, prev.ast, valname, selfname)
+                if pred is None and len(args) > 2:
+                    # `program is None`: without a program there is no table the name could be found in
+                    t_ = prev.ast
+                    neg_ = False
+                    while isinstance(t_, ast.UnaryOp) and isinstance(t_.op, ast.Not):
+                        t_, neg_ = t_.operand, not neg_
+                    if isinstance(t_, ast.Compare) and len(t_.ops) == 1 and isinstance(t_.ops[0], (ast.Is, ast.IsNot)) and isinstance(t_.left, ast.Name) and t_.left.id == args[2] and isinstance(t_.comparators[0], ast.Constant) and t_.comparators[0].value is None:
+                        absent = ((lab == "true") == isinstance(t_.ops[0], ast.Is)) != neg_
+                        if absent:
+                            if asg.get("F") is True:
+                                feasible = False
+                                break
+                            asg["F"] = False
+                            asg["N"] = True
+                        elif asg.get("N"):
+                            feasible = False
+                            break
+                        pred = "-"
                 if pred is None:
                     raise AnalysisError("C12.c: test `%s` in ResultParameter.clean is outside the predicate vocabulary" % K.src(prev.ast))
                 val = (lab == "true") == pol
-                if pred.startswith("var:"):
+                if pred == "-":
+                    pass
+                elif pred.startswith("var:"):
                     nm = pred[4:]
                     defs = valid_defs.get(nm, [])
                     if defs and all(("accepts(" in K.src(d)) or ("issubclass(" in K.src(d)) for d in defs):
                         pred = "A"
                     else:
                         raise AnalysisError("C12.c: test on local `%s` is outside the predicate vocabulary" % nm)
-                if pred in asg and asg[pred] != val:
-                    feasible = False
-                    break
-                asg[pred] = val
+                if pred != "-":
+                    if pred in asg and asg[pred] != val:
+                        feasible = False
+                        break
+                    asg[pred] = val
             if n.kind == "raise":
                 q = n.meta.get("qual") or "?"
                 outcome = q.split(".")[-1]
